@@ -157,6 +157,8 @@ def coverage_cases():
     small2 = (i % 3).astype(np.int8)
     out.append(('int8_codes', small1, small2))
     out.append(('int16_codes', (i % 300).astype(np.int16), (i % 7).astype(np.int8)))
+    i2 = np.arange(1200000)
+    out.append(('long_1200000', (i2 % 1100).astype(np.int64), ((i2 * 7) % 1300).astype(np.int64)))
     # two-level grid: the four combinations of {0,K1} x {0,K2} with multiplicities 4,3,2,1 for code magnitudes around powers of ten and two
     # (any bounded table / modulus / narrow key arithmetic merges two of the four pairs for some K1,K2 of this grid)
     ks = [1, 9, 10, 99, 100, 999, 1000, 1001, 9999, 10 ** 4, 99999, 10 ** 5, 999999, 10 ** 6, 255, 256, 1023, 1024, 4095, 4096, 65535, 65536, 2 ** 20 - 1, 2 ** 20, 12831, 17]
@@ -173,7 +175,13 @@ def _coverage(_):
     st = Stats()
     for name, a1, a2 in coverage_cases():
         exp = max(Counter(zip(a1.tolist(), a2.tolist())).values()) / len(a1)
+        np.random.seed(len(name))
         ok, got = safe(max_pair_coverage, a1, a2)
+        if ok and len(a1) > 10 ** 6:
+            np.random.seed(7)
+            ok2, got2 = safe(max_pair_coverage, a1, a2)
+            if not ok2 or float(got2) != float(got):
+                st.violation({'kind': 'coverage', 'name': name}, f'{name}: the result depends on the state of the global random generator ({got!r} vs {got2!r})', {'kind': 'coverage_random', 'name': name})
         st.count('evaluations')
         st.count('coverage_directed')
         st.count('nontrivial')
@@ -339,6 +347,42 @@ def run_graph_noreset(columns, data, heuristic, pairwise):
     return res.triplet_scores
 
 
+def _pools(_):
+    """the same batches served by a 2- and 3-worker pool whose unordered API completes in another order: each row must still carry the score of ITS two columns"""
+    import pandas as pd
+    from mc import vpool
+    from outrank import core_ranking as cr
+    st = Stats()
+    for fi, data in enumerate(SEQ_FRAMES):
+        for heuristic in ('MI-numba-randomized', 'max-value-coverage', 'correlation-Pearson'):
+            for pairwise in (False, True):
+                for W, completion in ((2, 'lifo'), (3, 'rotate')):
+                    harness.reset_state()
+                    df = pd.DataFrame({c: list(v) for c, v in zip(['f1', 'f2', 'label'], data)})
+                    args = harness.make_args(heuristic=heuristic, target_ranking_only='False' if pairwise else 'True')
+                    pool = vpool.VirtualPool(W, tuple(i % W for i in range(32)), completion)
+                    with warnings.catch_warnings():
+                        warnings.simplefilter('ignore')
+                        ok, res = safe(cr.mixed_rank_graph, df, args, pool, harness.NullBar())
+                    st.count('evaluations')
+                    st.count('pool_cases')
+                    st.count('nontrivial')
+                    case = {'kind': 'pools', 'frame': fi, 'heuristic': heuristic, 'pairwise': pairwise, 'W': W}
+                    if not ok:
+                        st.violation(case, f'mixed_rank_graph raised {res} with a {W}-worker pool', {'kind': 'exception', 'heuristic': heuristic})
+                        continue
+                    cod = {c: coded(v) for c, v in zip(['f1', 'f2', 'label'], data)}
+                    for a, b, s_ in res.triplet_scores:
+                        if a == 'label' or b == 'label':
+                            cands = [ref_score(heuristic, cod[b if a == 'label' else a], cod['label'])]
+                        else:
+                            cands = [ref_score(heuristic, cod[a], cod[b]), ref_score(heuristic, cod[b], cod[a])]
+                        if not any(near(float(s_), c) for c in cands):
+                            st.violation(case, f'{W}-worker pool ({completion}): ({a},{b}) scored {float(s_)!r}, reference {cands!r}', {'kind': 'score_pool', 'heuristic': heuristic})
+                            break
+    return st
+
+
 def seq_menu(job):
     heuristic, pairwise = job
     return [(fi, heuristic, pairwise) for fi in range(len(SEQ_FRAMES))]
@@ -353,7 +397,7 @@ def _seqdiff(job):
 
 def _dispatch(item):
     k, job = item
-    return {'frames': _frames, 'coverage': _coverage, 'documented': _documented, 'seqdiff': _seqdiff, 'midcard': _midcard, 'names': _names, 'bigcard': _bigcard}[k](job)
+    return {'frames': _frames, 'coverage': _coverage, 'documented': _documented, 'seqdiff': _seqdiff, 'midcard': _midcard, 'names': _names, 'bigcard': _bigcard, 'pools': _pools}[k](job)
 
 
 def run(ctx):
@@ -361,7 +405,7 @@ def run(ctx):
     for n in ((1, 2, 3) if not ctx.thorough else (1, 2, 3, 4)):
         tot = enum.BELL[n] ** 3
         jobs += [('frames', (n, lo, hi)) for lo, hi in shards(tot, 96 if n == 4 else 16)]
-    jobs += [('coverage', None), ('documented', None), ('midcard', None), ('names', None), ('bigcard', None)]
+    jobs += [('coverage', None), ('documented', None), ('midcard', None), ('names', None), ('bigcard', None), ('pools', None)]
     jobs += [('seqdiff', (h, pw)) for h in ('MI-numba-randomized', 'MI', 'max-value-coverage', 'AMI') for pw in (False, True)]
     for st in pmap(_dispatch, jobs):
         ctx.stats.merge(st)
@@ -374,6 +418,8 @@ def eval_case(case):
     k = case['kind']
     if k == 'seqdiff':
         return seqdiff.replay(seq_call, seq_menu(tuple(case['job'])), case['seq'])
+    if k == 'pools':
+        return [v['what'] for v in _pools(None).violations if v['case']['heuristic'] == case['heuristic']]
     if k == 'names':
         fails, _ = judge(case['columns'], case['data'], case['heuristic'], case['pairwise'], case['label'])
         return [m for _, m in fails]
